@@ -117,7 +117,9 @@ where
         }
 
         let algorithm = Arc::clone(&self.algorithm);
-        let in_flight = Arc::clone(&self.in_flight);
+        // Gives the in-flight slot back when the call completes *or* its future is
+        // dropped (cancelled by an outer timeout, panicking inner call, ...)
+        let in_flight = InFlightGuard(Arc::clone(&self.in_flight));
         let semaphore = Arc::clone(&self.semaphore);
         let current_limit = Arc::clone(&self.current_limit);
 
@@ -127,7 +129,7 @@ where
                 let latency = start.elapsed();
 
                 // Decrement in-flight counter
-                in_flight.fetch_sub(1, Ordering::Relaxed);
+                drop(in_flight);
 
                 match &result {
                     Ok(_) => algorithm.record_success(latency),
@@ -148,6 +150,15 @@ where
                 result.map_err(AdaptiveError::Service)
             }),
         }
+    }
+}
+
+/// Decrements the in-flight counter when dropped.
+struct InFlightGuard(Arc<AtomicUsize>);
+
+impl Drop for InFlightGuard {
+    fn drop(&mut self) {
+        self.0.fetch_sub(1, Ordering::Relaxed);
     }
 }
 
